@@ -1462,7 +1462,7 @@ def load_corpus():
 
 def run(run):
     import multiprocessing
-    ncases = 1500 if run.thorough else 150
+    ncases = 1500 if run.thorough else 120
     cases = [c for c in load_corpus() if "task" in c]
     run.count("corpus", len(cases))
     while len(cases) < ncases:
